@@ -434,7 +434,14 @@ class Gen:
         for ln in lines:
             if ln.get("l") in temp:
                 ln["temp"] = True
-        return {"lines": lines}
+        res = {"lines": lines}
+        if isa == "x64" and self.knobs.get("intel_p", 0.12) and \
+                rng.random() < self.knobs.get("intel_p", 0.12) and all(
+                    "intel" in vocab.VOCAB[isa][ln["k"]] for ln in lines
+                    if "k" in ln and ln["k"] != "bytes"):
+            # the same patch written in Intel syntax
+            res["intel"] = True
+        return res
 
     def mark(self, eid):
         if self.case["isa"] == "arm64":
